@@ -46,6 +46,7 @@ class Scope(FortranObj):
         self.inherit = None
         self.parent = None
         self.contains_start = None
+        self.contains_children = 0
         self.implicit_line = None
         self.implicit_use_count = 0
         self.FQSN: str = self.name.lower()
@@ -77,6 +78,8 @@ class Scope(FortranObj):
         if self.contains_start is not None:
             raise ValueError
         self.contains_start = line_number
+        # Children read so far precede the CONTAINS statement
+        self.contains_children = len(self.children)
 
     def add_child(self, child):
         self.children.append(child)
@@ -171,10 +174,15 @@ class Scope(FortranObj):
             # Detect contains errors
             # NOTE: a procedure on the CONTAINS line itself (`contains; subroutine s`)
             # can only follow the CONTAINS statement
-            if (
-                contains_line > child_line
-                or (self.contains_start is None and contains_line == child_line)
-            ) and child.get_type(no_link=True) in (
+            # Statement order, not line numbers: a procedure may share the line
+            # of the CONTAINS statement on either side of it (`;`)
+            if self.contains_start is None:
+                before_contains = contains_line >= child_line
+            else:
+                before_contains = any(
+                    child is obj for obj in self.children[: self.contains_children]
+                )
+            if before_contains and child.get_type(no_link=True) in (
                 SUBROUTINE_TYPE_ID,
                 FUNCTION_TYPE_ID,
             ):
